@@ -223,7 +223,7 @@ def rule_SO(run: Run) -> RuleResult:
     res.add("labrea.conditional.Switch._lookup:dispatch failure -> default or re-raise", ok_fail, f, ln, d_fail or "failure -> default or the original error", nec)
     res.add("labrea.conditional.Switch._lookup:all five outcomes present, each ends in a node or a raise", ok_end, f, ln, d_end or "5 outcomes", nec)
     for op in ("evaluate", "validate", "keys", "explain"):
-        fn = sw.methods[op]
+        fn = sw.method(op)
         ok = sel_s.qualname in _helpers_reached(repo, sw, op)
         res.add(f"labrea.conditional.Switch.{op}:goes through _lookup", ok, f, fn.lineno, f"same selector ({sel}) in all four operations", nec)
 
@@ -256,6 +256,15 @@ def rule_SO(run: Run) -> RuleResult:
                 if not tests or tests[-1] is not True or any(tests[:-1]):
                     ok_first = False
                     d_first = f"case result returned with condition outcomes {tests} (must be: all earlier False, last True)"
+                # the conditions the choice depends on include the one that matched: when they are given as a prefix of the
+                # conditions (a slice, islice) its length must be the position of the match plus one
+                dterm = p.ret.attrs.get("depends") if isinstance(p.ret, New) else None
+                if dterm is not None and getattr(dterm, "partial", False):
+                    pre = getattr(dterm, "prefix", None)
+                    if pre is None or pre.key() != "binop:Add(position,Const(1))":
+                        ok_first = False
+                        d_first = (f"the dependencies of the chosen result are the first {pre.key() if pre is not None else '?'} conditions: "
+                                   "that prefix must end with the condition that matched (position + 1)")
             elif isinstance(r, Child) and r.path == "default":
                 saw["default"] = True
                 if any(tests):
@@ -580,7 +589,7 @@ def rule_EO(run: Run) -> RuleResult:
         if p.ret.key() != "valuecall(Val(evaluate,Child(func)),Val(evaluate,Child(evaluatable)))":
             ok = False
             d = f"returns {p.ret.key()[:80]}"
-    res.add("labrea.types.Apply.evaluate:source before function, function applied to the source value", ok, f, ap.methods["evaluate"].lineno,
+    res.add("labrea.types.Apply.evaluate:source before function, function applied to the source value", ok, f, ap.method("evaluate").lineno,
             d or "evaluate(evaluatable) then evaluate(func); returns func_value(source_value)", nec)
     bd = repo.cls("Bind")
     ps = normal(run.paths(bd, "evaluate"))
@@ -596,7 +605,7 @@ def rule_EO(run: Run) -> RuleResult:
             if seq[1].args[0].key() != "Val(evaluate,Child(evaluatable))" or not (isinstance(seq[2].target, Child) and seq[2].target.path == "func()"):
                 ok = False
                 d = "the bound function is not applied to the source value / its result is not evaluated"
-    res.add("labrea.types.Bind.evaluate:func(source value) evaluated under the same options", ok, bd.module.relpath, bd.methods["evaluate"].lineno, d or "evaluate(evaluatable) -> func(value) -> evaluate", nec)
+    res.add("labrea.types.Bind.evaluate:func(source value) evaluated under the same options", ok, bd.module.relpath, bd.method("evaluate").lineno, d or "evaluate(evaluatable) -> func(value) -> evaluate", nec)
     fa = repo.cls("FunctionApplication")
     ps = normal(run.paths(fa, "evaluate"))
     ok = bool(ps)
@@ -607,16 +616,16 @@ def rule_EO(run: Run) -> RuleResult:
         if not rk.startswith(want) or "attr:kwargs(Val(evaluate,Child(arguments)))" not in rk:
             ok = False
             d = f"returns {rk[:120]}"
-    res.add("labrea.application.FunctionApplication.evaluate:func(*args, **kwargs) over the evaluated arguments", ok, fa.module.relpath, fa.methods["evaluate"].lineno, d or "body called with evaluated args", nec)
+    res.add("labrea.application.FunctionApplication.evaluate:func(*args, **kwargs) over the evaluated arguments", ok, fa.module.relpath, fa.method("evaluate").lineno, d or "body called with evaluated args", nec)
     pa = repo.cls("PartialApplication")
     ps = normal(run.paths(pa, "evaluate"))
     ok = bool(ps) and all(p.ret.key().startswith("call:functools.partial(Val(evaluate,Child(func)),star(attr:args(Val(evaluate,Child(arguments))))") and "attr:kwargs(Val(evaluate,Child(arguments)))" in p.ret.key() for p in ps)
-    res.add("labrea.application.PartialApplication.evaluate:partial(func, *args, **kwargs) over the evaluated arguments", ok, pa.module.relpath, pa.methods["evaluate"].lineno,
+    res.add("labrea.application.PartialApplication.evaluate:partial(func, *args, **kwargs) over the evaluated arguments", ok, pa.module.relpath, pa.method("evaluate").lineno,
             "" if ok else f"{[p.ret.key()[:100] for p in ps]}", nec)
     ea = repo.cls("EvaluatableArguments")
     ps = normal(run.paths(ea, "evaluate"))
     ok = bool(ps) and all(p.ret.key() == "new:Arguments(star(Val(evaluate,Child(args))),kw:**(Val(evaluate,Child(kwargs))))" for p in ps)
-    res.add("labrea.arguments.EvaluatableArguments.evaluate:Arguments(*args, **kwargs) of the evaluated parts", ok, ea.module.relpath, ea.methods["evaluate"].lineno,
+    res.add("labrea.arguments.EvaluatableArguments.evaluate:Arguments(*args, **kwargs) of the evaluated parts", ok, ea.module.relpath, ea.method("evaluate").lineno,
             "" if ok else f"{[p.ret.key()[:100] for p in ps]}", nec)
     va = repo.cls("Value")
     ps = normal(run.paths(va, "evaluate"))
@@ -641,7 +650,7 @@ def rule_EO(run: Run) -> RuleResult:
             ok = False
             conds = [c[0] for c in p.conds]
             d = f"returns the wrapped object itself without attempting a copy (path conditions: {conds})"
-    res.add("labrea.types.Value.evaluate:returns (a copy of) the wrapped value", ok, va.module.relpath, va.methods["evaluate"].lineno,
+    res.add("labrea.types.Value.evaluate:returns (a copy of) the wrapped value", ok, va.module.relpath, va.method("evaluate").lineno,
             d or f"{[p.ret.key() for p in ps]}", nec)
     en = repo.cls("Evaluatable")
     IS_EV = "call:isinstance({0},class<labrea.types.Evaluatable>)"
@@ -738,10 +747,10 @@ def rule_EO(run: Run) -> RuleResult:
         if p.ret.key() != "Val(evaluate,Child(evaluatable))":
             ok = False
             d = f"returns {p.ret.key()[:60]}"
-    res.add("labrea.computation.Computation.evaluate:effect after the body, with its value; value returned unchanged", ok and saw_t, co.module.relpath, co.methods["evaluate"].lineno, d or "evaluate -> effect.transform(value, options) -> value", nec)
+    res.add("labrea.computation.Computation.evaluate:effect after the body, with its value; value returned unchanged", ok and saw_t, co.module.relpath, co.method("evaluate").lineno, d or "evaluate -> effect.transform(value, options) -> value", nec)
     # Pipeline.evaluate(options)(x) == tail(options)(rest(options)(x))
     pl = repo.cls("Pipeline")
-    fn = pl.methods["evaluate"]
+    fn = pl.method("evaluate")
     pps = analyse_method_result_call(Ctx(repo), pl, "evaluate", [Sym("x")])
     T, R = "Val(evaluate,Child(tail))", "Val(evaluate,Child(rest))"
     ok = bool(pps)
@@ -792,7 +801,7 @@ def rule_EO(run: Run) -> RuleResult:
             and all(e.opts is None or e.opts.key() == ps_[1] for p in tps for e in p.events if e.kind in ("op", "selfop"))
         res.add(f"{c.qualname}.transform:p.transform(x, o) == p(o)(x)", ok, c.module.relpath, fn.lineno, f"transform: {got}; evaluate(o)(x): {want}"[:300], nec)
     ce = repo.cls("CallbackEffect")
-    fn = ce.methods["transform"]
+    fn = ce.method("transform")
     ps_ = astu.param_names(fn)
     tps = analyse_method(Ctx(repo), ce, "transform")
     ok = bool(tps)
@@ -807,7 +816,7 @@ def rule_EO(run: Run) -> RuleResult:
     ch = repo.cls("ChainedEffect")
     ps = [p for p in analyse_method(Ctx(repo), ch, "transform") if p.status == "ret"]
     ok = any(any(e.kind == "op" and e.op == "transform" and isinstance(e.target, Child) and e.target.path == "effects[*]" and e.args and e.args[0].key() == "value" for e in p.events) for p in ps)
-    res.add("labrea.computation.ChainedEffect.transform:every effect receives the value", ok, ch.module.relpath, ch.methods["transform"].lineno, "for effect in self.effects: effect.transform(value, options)", nec)
+    res.add("labrea.computation.ChainedEffect.transform:every effect receives the value", ok, ch.module.relpath, ch.method("transform").lineno, "for effect in self.effects: effect.transform(value, options)", nec)
     return res
 
 
@@ -1264,6 +1273,22 @@ def rule_CD(run: Run) -> RuleResult:
                 if users and all(u in ft_of for u in users) and len({ft_of[u] for u in users}) == 1:
                     ft_of[q] = ft_of[next(iter(users))]
                     changed = True
+        # likewise a private module-level function (a context manager written as a generator, a small helper) that only one
+        # registered fall-through point refers to
+        for q, fi in repo.functions.items():
+            if q in ft_of or not fi.name.startswith("_") or fi.module.name.startswith("labrea.mypy"):
+                continue
+            users = set()
+            for m2, cls2, fn2, q2 in iter_functions(repo):
+                if fn2 is fi.node or m2.name.startswith("labrea.mypy"):
+                    continue
+                if any(isinstance(x, ast.Name) and x.id == fi.name for x in ast.walk(fn2)):
+                    r2 = repo.resolve_name(m2, fi.name)
+                    if r2 and r2[0] == "func" and r2[1] is fi:
+                        users.add(q2)
+            if users and all(u in ft_of for u in users) and len({ft_of[u] for u in users}) == 1:
+                ft_of[q] = ft_of[next(iter(users))]
+                changed = True
     for m, cls, fn, q in iter_functions(repo):
         if m.name.startswith("labrea.mypy"):
             continue
